@@ -663,7 +663,7 @@ def location_addressing(F):
             r.ob(why is None, {"fn": fn["path"], "delegates_to": x["method"], "cursor_addressed": why})
             if why:
                 r.violate("%s | delegates to cursor-addressed %s" % (fn["path"], x["method"]), F.loc(fn, x),
-                          "%s takes a location but hands the edit to `self.%s(..)`, which has no location parameter and chooses the place from `%s`: with a function-level mode selected, or the cursor elsewhere, the edit does not land at the location named" % (
+                          "%s takes a location but hands the edit to `self.%s(..)`, which has no location parameter and works at the cursor (`%s`) under whatever mode is selected: with a function-level mode selected, or the cursor elsewhere, the edit does not land at the location named" % (
                               fn["name"], x["method"], why))
         if touched:
             r.analysed.append(fn["path"])
@@ -673,8 +673,10 @@ def location_addressing(F):
 
 
 def _cursor_addressed(F, callee, adt, depth=0):
-    """the state (`self.<cursor field>` or the function-level `self.instr_flag.current_mode`) that lets a method of `adt`
-    without a location parameter choose the place it edits; None if it reads none (or is not a method of `adt`)"""
+    """the cursor field (`self.instr_idx`, `self.curr_*`) that lets a method of `adt` without a location parameter choose the
+    place it edits; None if it reads none (or is not a method of `adt`).  A helper that only asks whether a function-level
+    mode is selected (`self.instr_flag.current_mode.is_some()`) is not cursor-addressed: the location-addressed tag
+    methods ask that themselves."""
     if not callee or depth > 2:
         return None
     fs = F.by_path.get(callee) or []
@@ -688,7 +690,7 @@ def _cursor_addressed(F, callee, adt, depth=0):
     for y in walk(g["body"]):
         if y.get("k") == "Field":
             pp = place_path(y) or ""
-            if pp.startswith("self.") and (y["name"] in ("instr_idx", "curr_idx", "curr_instr", "curr_mod", "curr_func") or pp == "self.instr_flag.current_mode"):
+            if pp.startswith("self.") and y["name"] in ("instr_idx", "curr_idx", "curr_instr", "curr_mod", "curr_func"):
                 return pp
     for y in walk(g["body"]):
         if y.get("k") == "MethodCall" and place_path(y["recv"]) == "self":
